@@ -99,6 +99,88 @@ def t_nest(acc, m, shard, nshard):
             check_re(acc, ('.', ('*', ('+', ('*', X), b)), X))
 
 
+def simplified(r):
+    """Shapes that survive regexp_simplify (the labels a GNFA carries after earlier eliminations): no 0 below the root,
+    no 1 as a factor, no star of 0 / 1 / star."""
+    op = r[0]
+    if op in ('0', '1', 's'):
+        return True
+    if op == '*':
+        return r[1][0] not in ('0', '1', '*') and simplified(r[1])
+    l, rr = r[1], r[2]
+    if l[0] == '0' or rr[0] == '0':
+        return False
+    if op == '.' and (l[0] == '1' or rr[0] == '1'):
+        return False
+    return simplified(l) and simplified(rr)
+
+
+def t_step(acc, m, shard, nshard):
+    """The elimination step itself, from non-initial states: a GNFA start -R1-> q -R3-> accept with loop R2 on q and a
+    direct edge R4; gnfa_minimize rips q.  R1, R2 range over all simplified expressions with <= m nodes, R3, R4 over
+    {0, 1, a, b}.  The result must denote R1 R2* R3 + R4."""
+    from collections import defaultdict
+    from gambatools import regexp
+    from gambatools.gnfa import GNFA
+    from gambatools.regexp_algorithms import gnfa_minimize
+    big = [r for _, r in rx.trees_up_to(m) if simplified(r)]
+    small = [('0',), ('1',), ('s', 'a'), ('s', 'b')]
+    k = 0
+    for R1 in big:
+        for R2 in big:
+            k += 1
+            if k % nshard != shard:
+                continue
+            for R3 in small:
+                for R4 in small:
+                    rp = {'fn': 'mc.props.c06:one_step', 'mode': 'plain', 'params': {'R': [R1, R2, R3, R4]}}
+                    inst = {'gnfa': 'start -R1-> q -R3-> accept, loop R2 on q, start -R4-> accept', 'R1': rx.show(R1), 'R2': rx.show(R2), 'R3': rx.show(R3), 'R4': rx.show(R4)}
+                    delta = defaultdict(lambda: regexp.Zero())
+                    for key, R in ((('start', 'q'), R1), (('q', 'q'), R2), (('q', 'accept'), R3), (('start', 'accept'), R4)):
+                        if R != ('0',):
+                            delta[key] = rx.to_lib(R)
+                    G = GNFA({'start', 'q', 'accept'}, {'a', 'b'}, delta, 'start', 'accept')
+                    acc.states += 1
+                    ok, _ = core.lib_call(acc, 'gnfa_minimize', inst, gnfa_minimize, G, repro=rp)
+                    acc.transitions += 1
+                    if not ok:
+                        continue
+                    acc.evals += 1
+                    try:
+                        rs = rx.from_lib(G.delta['start', 'accept'])
+                    except rx.Malformed as e:
+                        acc.viol('gnfa_minimize', 'result is not a regular expression', inst, repro=rp, observed=str(e))
+                        continue
+                    exp = ('+', ('.', R1, ('.', ('*', R2), R3)), R4)
+                    w = fa.equivalent(rx.glushkov(rs, ['a', 'b']), rx.glushkov(exp, ['a', 'b']), sigma=['a', 'b'])
+                    acc.validated += 1
+                    if rx.nodes(R1) + rx.nodes(R2) >= 5:
+                        acc.nontrivial += 1
+                    if w is not None:
+                        acc.viol('gnfa_minimize', 'eliminating one state changes the language of the GNFA', inst, repro=rp, observed={'regexp': rx.show(rs)[:300], 'shortest_distinguishing_word': w})
+
+
+def one_step(acc, R):
+    R1, R2, R3, R4 = [tup(x) for x in R]
+    from collections import defaultdict
+    from gambatools import regexp
+    from gambatools.gnfa import GNFA
+    from gambatools.regexp_algorithms import gnfa_minimize
+    delta = defaultdict(lambda: regexp.Zero())
+    for key, R_ in ((('start', 'q'), R1), (('q', 'q'), R2), (('q', 'accept'), R3), (('start', 'accept'), R4)):
+        if R_ != ('0',):
+            delta[key] = rx.to_lib(R_)
+    G = GNFA({'start', 'q', 'accept'}, {'a', 'b'}, delta, 'start', 'accept')
+    inst = {'R1': rx.show(R1), 'R2': rx.show(R2), 'R3': rx.show(R3), 'R4': rx.show(R4)}
+    ok, _ = core.lib_call(acc, 'gnfa_minimize', inst, gnfa_minimize, G)
+    if ok:
+        rs = rx.from_lib(G.delta['start', 'accept'])
+        exp = ('+', ('.', R1, ('.', ('*', R2), R3)), R4)
+        w = fa.equivalent(rx.glushkov(rs, ['a', 'b']), rx.glushkov(exp, ['a', 'b']), sigma=['a', 'b'])
+        if w is not None:
+            acc.viol('gnfa_minimize', 'eliminating one state changes the language of the GNFA', inst, observed={'regexp': rx.show(rs)[:300], 'shortest_distinguishing_word': w})
+
+
 def t_re(acc, m, shard, nshard, lo=0):
     for idx, spec in rx.trees_up_to(m):
         if idx % nshard == shard and rx.nodes(spec) > lo:
@@ -124,6 +206,13 @@ def plan(tier, seed):
         dfa(n, k, 2, 1)
     dfa(2, 1, 1, 1, 'x')
     dfa(2, 2, 1, 1, 'q')
+    for sch in ('g', 'u', 'K', 'f'):
+        dfa(2, 1, 1, 1, sch)
+        dfa(2, 2, 0, 1, sch)
+        dfa(3, 1, 0, 1, sch)
+    dfa(1, 5, 1, 1, letters='w')
+    dfa(2, 5, 0, 4, stride=4, letters='w')
+    tasks.extend(('plain', 'mc.props.c06:t_step', {'m': 3, 'shard': s_, 'nshard': 16}) for s_ in range(16))
     for (n, k) in ((1, 1), (1, 2), (2, 1), (2, 2)):
         dfa(n, k, 1, 1, letters='01')
     dfa(3, 1, 1, 2, letters='01')
@@ -152,4 +241,4 @@ def plan(tier, seed):
         bounds = 'RE(9) -> NFA (665 252 trees); alphabets {a,b} and {0,1}; DFA(n<=3,k<=2) d<=2; DFA(4,1) d<=1; name schemes s, q, start/accept'
     return {'tasks': tasks, 'bounds': {'spaces': bounds}, 'exhaustive': True,
             'rule': 'every expression tree with <= m nodes (regexp_to_nfa vs Glushkov automaton, exact); every labelled DFA in the bounds x every state-elimination order reachable with <= d set-order deviations + CPython order (dfa_to_regexp vs the DFA, exact); non-trivial = expression with symbols and >= 4 nodes / DFA with F non-empty and >= 2 reachable states',
-            'assumptions': ['set order = global order per execution (DESIGN 3.4)']}
+            'assumptions': ['set order = global order per execution (DESIGN 3.4)', 'wave 5: the elimination step gnfa_minimize also from non-initial states (one rip state, labels = all simplified expressions with <= 3 nodes); names start/start2/accept/accept2, non-decimal digits, q9/q10; five-letter alphabets']}
